@@ -27,7 +27,7 @@ import sys
 
 REPO = os.environ.get("VERIF_REPO", "/repo")
 VERIF = os.path.dirname(os.path.dirname(os.path.abspath(__file__)))
-OUT = os.path.join(VERIF, "coq", "theories", "GenStack.v")
+OUT = os.environ.get("VERIF_GENSTACK_OUT", os.path.join(VERIF, "coq", "theories", "GenStack.v"))  # override: dry runs only
 
 # group -> files.  A function's group is decided by (file, impl type), see group_of().
 FILES = [
